@@ -222,8 +222,9 @@ OuterLoop:
 
 			url.Init()
 			rl.bindPolicyToURL(url)
+			// The previous generation may still be handling requests, so it
+			// must keep its reference: the rate limiter is shared, not moved.
 			url.rl = prev.rl
-			prev.rl = nil
 			rl.setStateListenerForURL(url)
 			continue OuterLoop
 		}
